@@ -1,8 +1,10 @@
 /-
 C05 / C20 (liveness side) — helpers: the setting (`Live.World.UserOk`, `DriverOk`, `Script`, `init'`),
 the "ghost fire" technique that lifts the hook-timer invariant `Inv` (Gk/Proofs/Hook.lean) across the
-window in which the scheduler has consumed the timer fire, and the inductive invariant `LiveInv`.
-The property theorems are in `Gk/Props/C05.lean` and `Gk/Props/C20live.lean`.
+window in which the scheduler has consumed the timer fire, the weaker hook-timer state `Obs.Loose` that
+survives a repository write the hook was not told about (D21, `SAct.markDispatchedCore`) until the pending
+restart of the timer, and the inductive invariant `LiveInv`.
+The property theorems are in `Gk/Props/C05.lean`, `Gk/Props/C20live.lean` and `Gk/Props/C20core.lean`.
 -/
 import Gk.Basic
 import Gk.Repo
@@ -434,6 +436,358 @@ theorem inv_startTimer {o : Obs} (h : Inv o ∨ (o.Dead ∧ Inv o.ghost)) (f : O
   · exact Inv_step h .start f trivial
   · rw [← ghost_startTimer hd.1]; exact Inv_step h .start f trivial
 
+
+/-! ## The hook out of sync with the repository (D21)
+
+`MarkAsDispatched` can take effect in the core repository below the observable wrapper and then be reported as
+failed (`SAct.markDispatchedCore`): the wrapper returns the error WITHOUT calling its timer hook. From then on the
+hook's cache may name a task that is no longer scheduled and the channel / armed deadline no longer answer to the
+repository's head: `Inv` is lost. What survives — and what every later hook call, run against the stale cache,
+preserves — is `Obs.Loose`: the repository part, the clock discipline, "stopped is silent", and
+
+    an armed deadline is NOT LATER than any scheduled task (and than the trusted cached task),
+
+i.e. the timer may be silent although a task is scheduled (that is the defect), but it is never armed too late.
+`StopTimer(); StartTimer()` — which the restart request set by every `DispatchErr` exit forces on the next
+`Step` — re-reads the head and turns `Loose` back into `Inv` (`Obs.Loose.inv_stop`, `Obs.Loose.inv_start`). -/
+
+/-- the hook-timer facts that survive a repository write the hook was not told about -/
+structure Obs.Loose (o : Obs) : Prop where
+  ok : TasksOk o.repo.tasks o.clock.now
+  fixed : o.hook.fixed = true
+  clk : o.clock.armed.isSome = true → o.clock.pending = false
+  stopped : o.hook.started = false →
+    o.hook.cached = none ∧ o.hook.stale = false ∧ o.clock.armed = none ∧ o.clock.pending = false ∧
+      o.hook.timerReset = false
+  early : o.hook.lastErr = none → ∀ d, o.clock.armed = some d →
+    (∀ t ∈ o.repo.tasks, t.state = .scheduled → d ≤ t.scheduledAt) ∧
+    (∀ c, o.hook.cached = some c → o.hook.stale = false → d ≤ c.scheduledAt)
+
+theorem Inv.loose {o : Obs} (hI : Inv o) : o.Loose := by
+  obtain ⟨hok, hH⟩ := hI
+  refine ⟨hok, hH.fixed, hH.clk, hH.stopped, ?_⟩
+  intro he d ha
+  have hp : o.clock.pending = false := hH.clk (by simp [ha])
+  have hs : o.hook.started = true := by
+    cases hs : o.hook.started with
+    | true => rfl
+    | false =>
+      have := (hH.stopped hs).2.2.1
+      rw [ha] at this; cases this
+  cases hc : o.hook.cached with
+  | none =>
+    have hn := (hH.empty hs he hc).1
+    rw [Repo.getNext_none_iff] at hn
+    exact ⟨fun t ht hst => absurd hst (hn t ht), fun c h => by cases h⟩
+  | some c0 =>
+    cases hst : o.hook.stale with
+    | false =>
+      have ⟨_, ⟨hd, y1, _, y2, _⟩, y3⟩ := hH.live hs he c0 hc hst
+      have hd0 : d = c0.scheduledAt := by
+        rcases y3 with y3 | y3
+        · rw [hp] at y3; cases y3
+        · rw [ha] at y3; cases y3; rfl
+      subst hd0
+      refine ⟨fun t ht hsc => ?_, fun c h _ => ?_⟩
+      · rw [← y2]; exact Repo.getNext_le_sched y1 t ht hsc
+      · cases h; exact Int.le_refl _
+    | true =>
+      have ⟨_, _, y3⟩ := hH.stl hs he c0 hc hst
+      rcases y3 with y3 | ⟨d', y3, y4⟩
+      · rw [hp] at y3; cases y3
+      · rw [ha] at y3; cases y3
+        exact ⟨y4, fun c _ h => by cases h⟩
+
+
+theorem Obs.Loose.inv_stop {o : Obs} (h : o.Loose) : Inv o.stopTimer := by
+  simp only [Obs.stopTimer, Clock.stopAndDrain_eq h.clk]
+  exact ⟨h.ok, ⟨h.fixed, by simp, by simp, fun _ _ => ⟨rfl, rfl⟩, by simp, by simp, by simp⟩⟩
+
+theorem Obs.Loose.inv_start {o : Obs} (h : o.Loose) (f : Option Err) : Inv (o.startTimer f) := by
+  unfold Obs.startTimer
+  refine update_inv' ?_ ?_ ?_ ?_ f
+  · exact h.fixed
+  · exact h.clk
+  · intro hs; simp at hs
+  · exact h.ok
+
+theorem Obs.Loose.update {o : Obs} (h : o.Loose) (f : Option Err) : (o.update f).Loose :=
+  (update_inv' h.fixed h.clk h.stopped h.ok f).loose
+
+/-- a hook call that did not re-arm (it left the clock alone and at most marked a non-empty cache stale), after a
+repository write all of whose scheduled tasks were there before or are not earlier than the armed deadline -/
+theorem Obs.Loose.keep {o : Obs} (h : o.Loose) {r : Repo} {hk : Hook}
+    (hok : TasksOk r.tasks o.clock.now)
+    (hhk : hk = o.hook ∨ (hk = { o.hook with stale := true } ∧ o.hook.cached ≠ none))
+    (hsch : ∀ t ∈ r.tasks, t.state = .scheduled → (t ∈ o.repo.tasks) ∨
+      (o.hook.lastErr = none → ∀ d, o.clock.armed = some d → d ≤ t.scheduledAt)) :
+    Obs.Loose { repo := r, hook := hk, clock := o.clock } := by
+  have hearly : o.hook.lastErr = none → ∀ d, o.clock.armed = some d →
+      ∀ t ∈ r.tasks, t.state = .scheduled → d ≤ t.scheduledAt := by
+    intro he d ha t ht hs
+    rcases hsch t ht hs with h1 | h1
+    · exact (h.early he d ha).1 t h1 hs
+    · exact h1 he d ha
+  rcases hhk with rfl | ⟨rfl, hc⟩
+  · exact ⟨hok, h.fixed, h.clk, h.stopped, fun he d ha => ⟨hearly he d ha, (h.early he d ha).2⟩⟩
+  · refine ⟨hok, h.fixed, h.clk, ?_, fun he d ha => ⟨hearly he d ha, fun c _ hst => by cases hst⟩⟩
+    intro hs
+    exact absurd (h.stopped hs).1 hc
+
+/-- the scheduled tasks after a successful `mutateScheduled` that takes the task out of the scheduled state -/
+theorem Obs.Loose.unschedule {o : Obs} (h : o.Loose) {id : String} {fT : Task → Task}
+    (hf : ∀ t, (fT t).id = t.id ∧ (fT t).scheduledAt = t.scheduledAt ∧ (fT t).createdAt = t.createdAt ∧
+      (fT t).state ≠ .scheduled) :
+    TasksOk (Repo.mutateScheduled o.repo id fT).1.tasks o.clock.now ∧
+    ∀ t ∈ (Repo.mutateScheduled o.repo id fT).1.tasks, t.state = .scheduled → t ∈ o.repo.tasks := by
+  by_cases hne : (Repo.mutateScheduled o.repo id fT).2.isErr = true
+  · have : (Repo.mutateScheduled o.repo id fT).1 = o.repo := by
+      unfold Repo.mutateScheduled at hne ⊢
+      cases hl : o.repo.lookup id with
+      | none => rfl
+      | some t0 =>
+        simp only [hl] at hne ⊢
+        by_cases hs : (t0.state != St.scheduled) = true
+        · simp only [hs, ↓reduceIte]; split <;> rfl
+        · simp [hs, Out.isErr] at hne
+    rw [this]
+    exact ⟨h.ok, fun t ht _ => ht⟩
+  · obtain ⟨g, h1, h2⟩ := mutate_ok h.ok id fT (by simpa using hne)
+    rw [h1]
+    constructor
+    · refine tasksOk_mutate h.ok h2 ?_
+      intro t n1 _
+      exact ⟨(hf t).1, by rw [(hf t).2.1]; exact n1, (hf t).2.2.1⟩
+    · intro t' ht' hs'
+      obtain ⟨t, ht, rfl⟩ := List.mem_map.1 ht'
+      rcases h2 t ht with e | ⟨_, _, e⟩
+      · rw [e]; exact ht
+      · rw [e] at hs'; exact absurd hs' (hf t).2.2.2
+
+/-- the core repository marks a task as dispatched (or refuses), the hook is not told (D21) -/
+theorem Obs.Loose.coreDispatch {o : Obs} (h : o.Loose) (id : String) :
+    Obs.Loose { o with repo := (Repo.step {} o.repo o.clock.now (.dispatch id)).1 } := by
+  have ⟨h1, h2⟩ := h.unschedule (id := id)
+    (fT := fun t => { t with state := .dispatched, dispatchedAt := some (normalize o.clock.now) })
+    (fun t => ⟨rfl, rfl, rfl, by simp⟩)
+  exact h.keep (r := (Repo.step {} o.repo o.clock.now (.dispatch id)).1) h1 (.inl rfl)
+    (fun t ht hs => .inl (h2 t ht hs))
+
+theorem Obs.Loose.advance {o : Obs} (h : o.Loose) (t : Time) :
+    Obs.Loose { o with clock := o.clock.advance t } := by
+  have ⟨h1, h2⟩ := Clock.advance_cases o.clock t
+  generalize o.clock.advance t = c' at h1 h2
+  rcases h2 with ⟨h2, h3⟩ | ⟨h2, h3, h4⟩
+  · exact ⟨h.ok.mono h1, h.fixed, by rw [h2, h3]; exact h.clk, by rw [h2, h3]; exact h.stopped,
+      by rw [h2]; exact h.early⟩
+  · refine ⟨h.ok.mono h1, h.fixed, by simp [h3], ?_, ?_⟩
+    · intro a
+      have := (h.stopped a).2.2.1
+      simp [this] at h2
+    · intro _ d ha
+      simp only at ha
+      rw [h3] at ha; cases ha
+
+theorem loose_update' {r : Repo} {hk : Hook} {c : Clock} (hfix : hk.fixed = true)
+    (hclk : c.armed.isSome = true → c.pending = false)
+    (hstop : hk.started = false → hk.cached = none ∧ hk.stale = false ∧
+      c.armed = none ∧ c.pending = false ∧ hk.timerReset = false)
+    (hok : TasksOk r.tasks c.now) (f : Option Err) : (Obs.update ⟨r, hk, c⟩ f).Loose :=
+  (update_inv' (o := ⟨r, hk, c⟩) hfix hclk hstop hok f).loose
+
+theorem loose_ite_fst {c : Prop} [Decidable c] {o o' : Obs} {a b : Out} (h0 : o.Loose)
+    (h1 : ¬c → o'.Loose) : (if c then (o, a) else (o', b)).1.Loose := by
+  split
+  · exact h0
+  · next h => exact h1 h
+
+theorem Obs.Loose.user_step {o : Obs} (h : o.Loose) (op : Obs.OOp) (f : Option Err) (hfr : o.FreshOp op)
+    (hu : match op with | .add .. | .update .. | .cancel _ | .dispatch _ => True | _ => False) :
+    (o.step op f).1.Loose := by
+  cases op with
+  | add id p =>
+    simp only [Obs.step, Repo.step]
+    by_cases hv : (p.normalize.toTask id o.clock.now).isValid = true
+    · simp only [hv, Bool.not_true, Bool.false_eq_true, ↓reduceIte, Out.isErr]
+      have hok' : TasksOk (o.repo.tasks ++ [p.normalize.toTask id o.clock.now]) o.clock.now := by
+        apply h.ok.append
+        · intro a ha; exact hfr a ha
+        · simp only [Param.toTask_scheduledAt, Param.toTask_createdAt]
+          exact ⟨normalize_mod _, normalize_mod _, Int.le_trans (normalize_le _) (normalize_le _)⟩
+      unfold Obs.hookAdd
+      cases hc : o.hook.cached with
+      | none => exact loose_update' h.fixed h.clk h.stopped hok' f
+      | some c0 =>
+        simp only
+        split
+        · exact loose_update' h.fixed h.clk h.stopped hok' f
+        · next hno =>
+          simp only [Bool.or_eq_true, not_or, Bool.not_eq_true] at hno
+          have hst := untrusted_false h.fixed hno.1
+          refine h.keep hok' (.inl rfl) ?_
+          intro t ht hs
+          rcases List.mem_append.1 ht with ht | ht
+          · exact .inl ht
+          · right
+            intro he d ha
+            simp only [List.mem_singleton] at ht
+            subst ht
+            have hb := (h.early he d ha).2 c0 hc hst
+            have hlh := hno.2
+            rw [← Bool.not_eq_true, Task.lessHook_iff (by simp)] at hlh
+            simp only [Param.toTask_scheduledAt, Param.toTask_priority, Param.toTask_createdAt,
+              Param.normalize_scheduledAt, getD_map_normalize] at hlh ⊢
+            generalize normalize (p.scheduledAt.getD 0) = s at *
+            tomega
+    · simp only [hv, Bool.not_false, ↓reduceIte, Out.isErr]
+      exact h
+  | update id p =>
+    simp only [Obs.step, Repo.step]
+    by_cases hv : p.validForUpdate = true
+    · simp only [hv, Bool.not_true, Bool.false_eq_true, ↓reduceIte]
+      apply loose_ite_fst h
+      intro hne
+      obtain ⟨g, h1, h2⟩ := mutate_ok h.ok id (fun t => t.update p.normalize) (by simpa using hne)
+      have hok' : TasksOk (Repo.mutateScheduled o.repo id (fun t => t.update p.normalize)).1.tasks
+          o.clock.now := by
+        rw [h1]
+        refine tasksOk_mutate h.ok h2 ?_
+        intro t _ n2
+        exact ⟨rfl, normalize_mod _, normalize_of_mod n2⟩
+      generalize (Repo.mutateScheduled o.repo id (fun t => t.update p.normalize)).1 = r at h1 hok' ⊢
+      -- a scheduled task of the new store is an old one, or the updated one: its time is the old time or
+      -- the (normalised) operand
+      have key : (o.hook.lastErr = none → ∀ d, o.clock.armed = some d →
+            ∀ s, p.normalize.scheduledAt = some s → d ≤ s) →
+          ∀ t' ∈ r.tasks, t'.state = .scheduled → t' ∈ o.repo.tasks ∨
+            (o.hook.lastErr = none → ∀ d, o.clock.armed = some d → d ≤ t'.scheduledAt) := by
+        intro hb t' ht' hs'
+        rw [h1] at ht'
+        obtain ⟨t, ht, rfl⟩ := List.mem_map.1 ht'
+        rcases h2 t ht with e | ⟨_, hst, e⟩
+        · rw [e]; exact .inl ht
+        · right
+          intro he d ha
+          rw [e]
+          simp only [Task.update_scheduledAt]
+          cases hps : p.normalize.scheduledAt with
+          | none =>
+            simp only [Option.getD_none, normalize_of_mod (h.ok.norm t ht).1]
+            exact (h.early he d ha).1 t ht hst
+          | some s =>
+            have hle := hb he d ha s hps
+            simp only [Param.normalize_scheduledAt, Option.map_eq_some_iff] at hps
+            obtain ⟨s0, _, rfl⟩ := hps
+            simp only [Option.getD_some, normalize_idem]
+            exact hle
+      unfold Obs.hookUpdate
+      cases hc : o.hook.cached with
+      | none => exact loose_update' h.fixed h.clk h.stopped hok' f
+      | some c0 =>
+        simp only [if_pos h.fixed]
+        split
+        · exact loose_update' h.fixed h.clk h.stopped hok' f
+        · next hut =>
+          have hst := untrusted_false h.fixed (by simpa using hut)
+          by_cases hid : id = c0.id
+          · subst hid
+            simp only [beq_self_eq_true, ↓reduceIte]
+            split
+            · next hnn =>
+              simp only [Bool.and_eq_true, Option.isNone_iff_eq_none] at hnn
+              refine h.keep hok' (.inl rfl) (key ?_)
+              intro _ _ _ s hps
+              rw [hnn.2] at hps; cases hps
+            · split
+              · exact loose_update' h.fixed h.clk h.stopped hok' f
+              · next _ hlh =>
+                refine h.keep hok' (.inr ⟨rfl, by simp [hc]⟩) (key ?_)
+                intro he d ha s hps
+                have hb := (h.early he d ha).2 c0 hc hst
+                rw [Bool.not_eq_true, ← Bool.not_eq_true, Task.lessHook_iff (by simp)] at hlh
+                simp only [Param.toTask_scheduledAt, or_some_getD, hps, Option.getD_some] at hlh
+                simp only [Param.normalize_scheduledAt, Option.map_eq_some_iff] at hps
+                obtain ⟨s0, _, rfl⟩ := hps
+                simp only [normalize_idem] at hlh
+                generalize normalize s0 = s at *
+                tomega
+          · have hid' : (id == c0.id) = false := by simpa using hid
+            simp only [hid', Bool.false_eq_true, ↓reduceIte]
+            cases hps : p.normalize.scheduledAt with
+            | some s =>
+              simp only
+              split
+              · exact loose_update' h.fixed h.clk h.stopped hok' f
+              · next hb =>
+                have hkeep : Obs.Loose { repo := r, hook := o.hook, clock := o.clock } := by
+                  refine h.keep hok' (.inl rfl) (key ?_)
+                  intro he d ha s' hps'
+                  rw [hps] at hps'; cases hps'
+                  have hb' := (h.early he d ha).2 c0 hc hst
+                  simp only [decide_eq_true_eq] at hb
+                  tomega
+                cases hpp : p.normalize.priority <;> simp only [Bool.false_eq_true, ↓reduceIte] <;>
+                  exact hkeep
+            | none =>
+              have hkeep : Obs.Loose { repo := r, hook := o.hook, clock := o.clock } := by
+                refine h.keep hok' (.inl rfl) (key ?_)
+                intro _ _ _ s' hps'
+                rw [hps] at hps'; cases hps'
+              simp only [Bool.false_eq_true, ↓reduceIte]
+              cases hpp : p.normalize.priority with
+              | some pr =>
+                simp only
+                split
+                · exact loose_update' h.fixed h.clk h.stopped hok' f
+                · exact hkeep
+              | none =>
+                simp only [Bool.false_eq_true, ↓reduceIte]
+                exact hkeep
+    · simp only [hv, Bool.not_false, ↓reduceIte, Out.isErr]
+      exact h
+  | cancel id =>
+    simp only [Obs.step, Repo.step]
+    apply loose_ite_fst h
+    intro _
+    have ⟨h1, h2⟩ := h.unschedule (id := id)
+      (fT := fun t => { t with state := .cancelled, cancelledAt := some (normalize o.clock.now) })
+      (fun t => ⟨rfl, rfl, rfl, by simp⟩)
+    unfold Obs.hookCancel
+    cases hc : o.hook.cached with
+    | none => exact loose_update' h.fixed h.clk h.stopped h1 f
+    | some c0 =>
+      simp only
+      split
+      · exact loose_update' h.fixed h.clk h.stopped h1 f
+      · exact h.keep h1 (.inl rfl) (fun t ht hs => .inl (h2 t ht hs))
+  | dispatch id =>
+    simp only [Obs.step, Repo.step]
+    apply loose_ite_fst h
+    intro _
+    have ⟨h1, h2⟩ := h.unschedule (id := id)
+      (fT := fun t => { t with state := .dispatched, dispatchedAt := some (normalize o.clock.now) })
+      (fun t => ⟨rfl, rfl, rfl, by simp⟩)
+    unfold Obs.hookDispatch
+    cases hc : o.hook.cached with
+    | none => exact h.keep h1 (.inl rfl) (fun t ht hs => .inl (h2 t ht hs))
+    | some c0 =>
+      simp only
+      split
+      · exact loose_update' h.fixed h.clk h.stopped h1 f
+      · exact h.keep h1 (.inl rfl) (fun t ht hs => .inl (h2 t ht hs))
+  | start => exact absurd hu id
+  | stop => exact absurd hu id
+  | advance _ => exact absurd hu id
+  | fire => exact absurd hu id
+
+/-- the "fire consumed" state is a special case -/
+theorem loose_of_ghost {o : Obs} (hd : o.Dead) (hI : Inv o.ghost) : o.Loose := by
+  have hs := ghost_started hI
+  refine ⟨hI.1, hI.2.fixed, ?_, ?_, ?_⟩
+  · intro h; rw [hd.1] at h; cases h
+  · intro h; rw [hs] at h; cases h
+  · intro _ d ha; rw [hd.1] at ha; cases ha
+
 end Gk
 
 /-! ## The setting and the invariant of the scheduler automaton -/
@@ -557,9 +911,9 @@ def Sticky (w : World) : Prop := LastDebt w ∨ (w.getNextErr = true ∧ quietRe
 def DErr (w : World) : Prop :=
   ∃ t e, w.ret = .dispatchErr t e ∧ World.isDefError e = false ∧ w.obs.Held t
 
-/-- The scheduler owes a wake-up: it has consumed the fire and has not re-armed yet, but its control
+/-- The scheduler owes a wake-up for the fire it has consumed: it has not re-armed yet, but its control
 state guarantees that it will (or that the driver's next call will). -/
-def Owes (w : World) : Prop :=
+def OwesHeld (w : World) : Prop :=
   match w.pc with
   | .idle => Sticky w ∨ DErr w
   | .s_lastErr0 => LastDebt w
@@ -567,13 +921,37 @@ def Owes (w : World) : Prop :=
   | .s_nextSched t | .d_wait t false | .d_mark t _ | .r_getById t => w.obs.Held t
   | _ => False
 
-/-- The inductive invariant: the hook-timer invariant holds, or the fire is consumed (nothing armed,
+/-- (D21) program counters at which a set restart request (`getNextErr`) stays set until `StopTimer()` runs:
+between two calls, at the `StopTimer()` of `Step`'s restart prologue / of `Retry(TimerUpdateError)`, and along
+`Retry(DispatchErr)` through `dispatchTask` (which never clears it). NOT `s_lastErr0` / `s_lastErr1`, where
+`LastTimerUpdateError() == nil` clears the request. -/
+def restartPc : Pc → Bool
+  | .idle | .s_stop | .r_stop | .r_getById _ | .d_wait _ _ | .d_mark _ _ | .d_get _ => true
+  | _ => false
+
+/-- (D21) a restart of the timer is pending: the request is set and the control state guarantees that the next
+thing that happens to the timer is `StopTimer(); StartTimer()` — at the latest in the prologue of the next `Step` -/
+def Restart (w : World) : Prop := w.getNextErr = true ∧ restartPc w.pc = true
+
+/-- The scheduler owes a wake-up: for the fire it has consumed (`OwesHeld`), or because a restart of the timer is
+pending (`Restart`, D21). -/
+def Owes (w : World) : Prop := OwesHeld w ∨ Restart w
+
+/-- The inductive invariant: the hook-timer invariant holds; or the fire is consumed (nothing armed,
 nothing pending), the hook-timer invariant holds for the state with the fire put back, and the
-scheduler owes a wake-up. -/
+scheduler owes a wake-up; or (D21) the repository has been written behind the hook's back — the hook-timer state
+is only `Loose` (never armed too late, but possibly silent) — and a restart of the timer is pending. -/
 structure LiveInv (w : World) : Prop where
   fix : w.fix = {}
   sticky : StickyOk w
-  hook : Inv w.obs ∨ (w.obs.Dead ∧ Inv w.obs.ghost ∧ Owes w)
+  hook : Inv w.obs ∨ (w.obs.Dead ∧ Inv w.obs.ghost ∧ OwesHeld w) ∨ (w.obs.Loose ∧ Restart w)
+
+/-- in every case the hook-timer state is at least `Loose` -/
+theorem LiveInv.loose {w : World} (h : LiveInv w) : w.obs.Loose := by
+  rcases h.hook with h | ⟨hd, h, _⟩ | ⟨h, _⟩
+  · exact h.loose
+  · exact loose_of_ghost hd h
+  · exact h
 
 /-- between two calls a `DispatchErr` state comes with the restart request (D21) -/
 theorem LiveInv.dispatchErr_restart {w : World} (h : LiveInv w) (hpc : w.pc = .idle) {t : Task} {e : Err}
@@ -582,27 +960,50 @@ theorem LiveInv.dispatchErr_restart {w : World} (h : LiveInv w) (hpc : w.pc = .i
   rw [hpc, hr] at this
   exact this
 
-theorem LiveInv.tasksOk {w : World} (h : LiveInv w) : TasksOk w.obs.repo.tasks w.obs.clock.now := by
-  rcases h.hook with h | ⟨_, h, _⟩
-  · exact h.1
-  · exact h.1
+theorem LiveInv.tasksOk {w : World} (h : LiveInv w) : TasksOk w.obs.repo.tasks w.obs.clock.now :=
+  h.loose.ok
 
-theorem LiveInv.weak {w : World} (h : LiveInv w) : Inv w.obs ∨ (w.obs.Dead ∧ Inv w.obs.ghost) := by
-  rcases h.hook with h | ⟨a, b, _⟩
+/-- `StopTimer()` re-establishes the hook-timer invariant from every state -/
+theorem LiveInv.inv_stop {w : World} (h : LiveInv w) : Inv w.obs.stopTimer := h.loose.inv_stop
+
+/-- `StartTimer()` re-establishes the hook-timer invariant from every state -/
+theorem LiveInv.inv_start {w : World} (h : LiveInv w) (f : Option Err) : Inv (w.obs.startTimer f) :=
+  h.loose.inv_start f
+
+/-- outside the states in which a restart is pending the hook-timer invariant holds, up to the consumed fire -/
+theorem LiveInv.weak {w : World} (h : LiveInv w) (hr : ¬ Restart w) :
+    Inv w.obs ∨ (w.obs.Dead ∧ Inv w.obs.ghost) := by
+  rcases h.hook with h | ⟨a, b, _⟩ | ⟨_, c⟩
   · exact Or.inl h
   · exact Or.inr ⟨a, b⟩
+  · exact absurd c hr
+
+local macro "restart_tac" : tactic =>
+  `(tactic| (intro hr; first
+    | exact ⟨hr.1, rfl⟩ | exact ⟨rfl, rfl⟩ | exact hr
+    | (exfalso; have h2 := hr.2; simp [restartPc, *] at h2; done)
+    | (exfalso; have h1 := hr.1; simp [*] at h1; done)))
 
 /-- same observable, the debt bookkeeping moves -/
 theorem LiveInv.move {w w' : World} (h : LiveInv w) (hfix : w'.fix = w.fix) (hobs : w'.obs = w.obs)
-    (hs : StickyOk w') (ho : w.obs.Dead → Inv w.obs.ghost → Owes w → Owes w' ∨ Inv w.obs) :
+    (hs : StickyOk w') (ho : w.obs.Dead → Inv w.obs.ghost → OwesHeld w → OwesHeld w' ∨ Inv w.obs)
+    (hr : Restart w → Restart w' := by restart_tac) :
     LiveInv w' := by
   refine ⟨hfix.trans h.fix, hs, ?_⟩
   rw [hobs]
-  rcases h.hook with hI | ⟨hd, hI, hO⟩
+  rcases h.hook with hI | ⟨hd, hI, hO⟩ | ⟨hl, hR⟩
   · exact Or.inl hI
   · rcases ho hd hI hO with h1 | h1
-    · exact Or.inr ⟨hd, hI, h1⟩
+    · exact Or.inr (Or.inl ⟨hd, hI, h1⟩)
     · exact Or.inl h1
+  · exact Or.inr (Or.inr ⟨hl, hr hR⟩)
+
+/-- the hook-timer invariant can only be missing with a debt -/
+theorem LiveInv.inv_of_not {w : World} (h : LiveInv w) (h1 : ¬ OwesHeld w) (h2 : ¬ Restart w) : Inv w.obs := by
+  rcases h.hook with hI | ⟨_, _, ho⟩ | ⟨_, hr⟩
+  · exact hI
+  · exact absurd ho h1
+  · exact absurd hr h2
 
 theorem LiveInv.paid {w w' : World} (h : LiveInv w) (hfix : w'.fix = w.fix) (hs : StickyOk w')
     (hI : Inv w'.obs) : LiveInv w' :=
@@ -646,7 +1047,7 @@ theorem LiveInv.sched_free {w : World} (h : LiveInv w) (a : SAct) : LiveInv (w.s
   have hfix := h.fix
   cases hpc : w.pc <;> cases a <;> simp only [World.sched, hpc]
   all_goals first
-    | exact h.move rfl rfl (by simpa [StickyOk, hpc] using hS) (fun _ _ ho => Or.inl (by simpa [Owes, hpc, Sticky, LastDebt, DErr] using ho))
+    | exact h.move rfl rfl (by simpa [StickyOk, hpc] using hS) (fun _ _ ho => Or.inl (by simpa [OwesHeld, hpc, Sticky, LastDebt, DErr] using ho))
     | skip
   case idle.beginStep =>
     split
@@ -657,7 +1058,7 @@ theorem LiveInv.sched_free {w : World} (h : LiveInv w) (a : SAct) : LiveInv (w.s
         rintro ⟨t, e, h1, _, _⟩
         exact hg (h.dispatchErr_restart hpc h1)
       refine h.move rfl rfl (by sticky_tac) (fun _ _ ho => Or.inl ?_)
-      have ho' : Sticky w ∨ DErr w := by simpa [Owes, hpc] using ho
+      have ho' : Sticky w ∨ DErr w := by simpa [OwesHeld, hpc] using ho
       rcases ho' with (hl | hg') | hde
       · exact hl
       · exact absurd hg'.1 hg
@@ -670,21 +1071,21 @@ theorem LiveInv.sched_free {w : World} (h : LiveInv w) (a : SAct) : LiveInv (w.s
       cases hlt : w.lastTask with
       | none =>
         refine h.move rfl rfl (by sticky_tac) (fun _ _ ho => ?_)
-        have ho' : LastDebt w := by simpa [Owes, hpc] using ho
+        have ho' : LastDebt w := by simpa [OwesHeld, hpc] using ho
         obtain ⟨t, h1, _⟩ := ho'
         rw [hlt] at h1; cases h1
       | some t =>
         refine h.move rfl rfl (by sticky_tac) (fun _ _ ho => Or.inl ?_)
-        have ho' : LastDebt w := by simpa [Owes, hpc] using ho
+        have ho' : LastDebt w := by simpa [OwesHeld, hpc] using ho
         obtain ⟨t', h1, h2⟩ := ho'
         rw [hlt] at h1; cases h1
         exact h2
-  case s_stop.stopTimer => exact h.paid rfl (by sticky_tac) (inv_stopTimer h.weak)
-  case r_stop.stopTimer => exact h.paid rfl (by sticky_tac) (inv_stopTimer h.weak)
-  case s_start.startTimer => exact h.paid rfl (by sticky_tac) (inv_startTimer h.weak _)
-  case r_start.startTimer => exact h.paid rfl (by sticky_tac) (inv_startTimer h.weak _)
+  case s_stop.stopTimer => exact h.paid rfl (by sticky_tac) h.inv_stop
+  case r_stop.stopTimer => exact h.paid rfl (by sticky_tac) h.inv_stop
+  case s_start.startTimer => exact h.paid rfl (by sticky_tac) (h.inv_start _)
+  case r_start.startTimer => exact h.paid rfl (by sticky_tac) (h.inv_start _)
   case s_lastErr1.lastTimerErr =>
-    have hno : ¬ Owes w := by simp [Owes, hpc]
+    have hno : ¬ OwesHeld w := by simp [OwesHeld, hpc]
     split
     · exact h.move rfl rfl (by sticky_tac) (fun _ _ ho => absurd ho hno)
     · unfold World.afterPrologue
@@ -693,22 +1094,22 @@ theorem LiveInv.sched_free {w : World} (h : LiveInv w) (a : SAct) : LiveInv (w.s
       · exact h.move rfl rfl (by sticky_tac) (fun _ _ ho => absurd ho hno)
       · exact h.move rfl rfl (by sticky_tac) (fun _ _ ho => absurd ho hno)
   case r_lastErr.lastTimerErr =>
-    have hno : ¬ Owes w := by simp [Owes, hpc]
+    have hno : ¬ OwesHeld w := by simp [OwesHeld, hpc]
     split
     · exact h.move rfl rfl (by sticky_tac) (fun _ _ ho => absurd ho hno)
     · exact h.move rfl rfl (by sticky_tac) (fun _ _ ho => absurd ho hno)
   case s_select.selCtx =>
-    have hno : ¬ Owes w := by simp [Owes, hpc]
+    have hno : ¬ OwesHeld w := by simp [OwesHeld, hpc]
     exact h.move rfl rfl (by sticky_tac) (fun _ _ ho => absurd ho hno)
   case s_select.selResult =>
-    have hno : ¬ Owes w := by simp [Owes, hpc]
+    have hno : ¬ OwesHeld w := by simp [OwesHeld, hpc]
     split
     · exact h.move rfl rfl (by sticky_tac) (fun _ _ ho => absurd ho hno)
     · split
       · exact h.move rfl rfl (by sticky_tac) (fun _ _ ho => absurd ho hno)
       · exact h.move rfl rfl (by sticky_tac) (fun _ _ ho => absurd ho hno)
   case d_get.getById =>
-    have hno : ¬ Owes w := by simp [Owes, hpc]
+    have hno : ¬ OwesHeld w := by simp [OwesHeld, hpc]
     split
     · exact h.move rfl rfl (by sticky_tac) (fun _ _ ho => absurd ho hno)
     · split
@@ -726,38 +1127,38 @@ theorem LiveInv.sched_free {w : World} (h : LiveInv w) (a : SAct) : LiveInv (w.s
     · exact h.move rfl rfl (by sticky_tac) (fun _ _ _ => Or.inl trivial)
     · next t e hr =>
       refine h.move rfl rfl (by sticky_tac) (fun _ _ ho => Or.inl ?_)
-      have ho' : Sticky w ∨ DErr w := by simpa [Owes, hpc] using ho
+      have ho' : Sticky w ∨ DErr w := by simpa [OwesHeld, hpc] using ho
       rcases ho' with hs | ⟨t', e', h1, _, h3⟩
       · have := hq hs
         rw [hr] at this; cases this
       · rw [hr] at h1; cases h1
         exact h3
     · next id o ue hr =>
-      refine h.move rfl rfl (by sticky_tac) (fun _ _ ho => ?_)
-      have ho' : Sticky w ∨ DErr w := by simpa [Owes, hpc] using ho
-      rcases ho' with hs | ⟨t', e', h1, _, h3⟩
-      · have := hq hs
+      -- the restart request is never set together with a `TaskDone` state
+      refine h.move rfl rfl (by sticky_tac) (fun _ _ ho => ?_) (fun hR => ?_)
+      · have ho' : Sticky w ∨ DErr w := by simpa [OwesHeld, hpc] using ho
+        rcases ho' with hs | ⟨t', e', h1, _, h3⟩
+        · have := hq hs
+          rw [hr] at this; cases this
+        · rw [hr] at h1; cases h1
+      · have := (hS.2.1 hR.1).2
         rw [hr] at this; cases this
-      · rw [hr] at h1; cases h1
     · next hr1 hr2 hr3 =>
       refine h.move rfl rfl (by sticky_tac) (fun _ _ ho => Or.inl ?_)
-      have ho' : Sticky w ∨ DErr w := by simpa [Owes, hpc] using ho
+      have ho' : Sticky w ∨ DErr w := by simpa [OwesHeld, hpc] using ho
       rcases ho' with (hs | hs) | ⟨t', e', h1, _, h3⟩
       · exact Or.inl (Or.inl hs)
       · exact Or.inl (Or.inr ⟨hs.1, rfl⟩)
       · exact absurd h1 (hr2 t' e')
   case s_select.selTimer =>
-    have hno : ¬ Owes w := by simp [Owes, hpc]
+    have hno : ¬ OwesHeld w := by simp [OwesHeld, hpc]
     split
     · next hp =>
-      have hI : Inv w.obs := by
-        rcases h.hook with hI | ⟨_, _, ho⟩
-        · exact hI
-        · exact absurd ho hno
+      have hI : Inv w.obs := h.inv_of_not hno (by simp [Restart, restartPc, hpc])
       have ⟨hd, hg⟩ := ghost_of_consume hI hp
       have hI' := hI
       rw [← hg] at hI'
-      exact ⟨hfix, by sticky_tac, Or.inr ⟨hd, hI', trivial⟩⟩
+      exact ⟨hfix, by sticky_tac, Or.inr (Or.inl ⟨hd, hI', trivial⟩)⟩
     · exact h.move rfl rfl (by sticky_tac) (fun _ _ ho => absurd ho hno)
   case s_getNext.getNext =>
     split
@@ -771,53 +1172,61 @@ theorem LiveInv.sched_free {w : World} (h : LiveInv w) (a : SAct) : LiveInv (w.s
     split
     · exact h.move hfix.symm rfl (by sticky_tac) (fun _ _ _ => Or.inl (Or.inl (Or.inr ⟨rfl, rfl⟩)))
     · refine h.move hfix.symm rfl (by sticky_tac) (fun _ _ ho => Or.inl (Or.inl (Or.inl ⟨t, rfl, ?_⟩)))
-      exact (by simpa [Owes, hpc] using ho : w.obs.Held t)
+      exact (by simpa [OwesHeld, hpc] using ho : w.obs.Held t)
   case d_wait.waitWorker t retry acq =>
     cases retry with
     | true =>
-      have hno : ¬ Owes w := by simp [Owes, hpc]
+      have hno : ¬ OwesHeld w := by simp [OwesHeld, hpc]
       split
       · exact h.move rfl rfl (by sticky_tac) (fun _ _ ho => absurd ho hno)
       · exact h.move rfl rfl (by sticky_tac) (fun _ _ ho => absurd ho hno)
     | false =>
-      have hh : Owes w → w.obs.Held t := by intro ho; simpa [Owes, hpc] using ho
+      have hh : OwesHeld w → w.obs.Held t := by intro ho; simpa [OwesHeld, hpc] using ho
       split
       · exact h.move rfl rfl (by sticky_tac) (fun _ _ ho => Or.inl (Or.inr ⟨t, .ctx, rfl, rfl, hh ho⟩))
       · exact h.move rfl rfl (by sticky_tac) (fun _ _ ho => Or.inl (hh ho))
   case s_markDone.markDone =>
-    have hI : Inv w.obs := by
-      rcases h.hook with hI | ⟨_, _, ho⟩
-      · exact hI
-      · simp [Owes, hpc] at ho
+    have hI : Inv w.obs := h.inv_of_not (by simp [OwesHeld, hpc]) (by simp [Restart, restartPc, hpc])
     split
     · exact h.paid rfl (by sticky_tac) hI
     · split
       · exact h.paid rfl (by sticky_tac) hI
       · exact h.paid rfl (by sticky_tac) (inv_done hI _ _ _)
   case r_markDone.markDone =>
-    have hI : Inv w.obs := by
-      rcases h.hook with hI | ⟨_, _, ho⟩
-      · exact hI
-      · simp [Owes, hpc] at ho
+    have hI : Inv w.obs := h.inv_of_not (by simp [OwesHeld, hpc]) (by simp [Restart, restartPc, hpc])
     repeat' split
     all_goals first
       | exact h.paid rfl (by sticky_tac) hI
       | exact h.paid rfl (by sticky_tac) (inv_done hI _ _ _)
   case d_mark.markDispatched t retry f hf =>
-    have hh : Owes w → w.obs.Held t := by intro ho; simpa [Owes, hpc] using ho
+    have hh : OwesHeld w → w.obs.Held t := by intro ho; simpa [OwesHeld, hpc] using ho
     split
     · exact h.move rfl rfl (by sticky_tac) (fun _ _ ho => Or.inl (Or.inr ⟨t, .other, rfl, rfl, hh ho⟩))
     · split
       · exact h.move rfl rfl (by sticky_tac) (fun _ _ ho => Or.inl (Or.inr ⟨t, .ctx, rfl, rfl, hh ho⟩))
-      · have hI' : Inv (w.obs.step (.dispatch t.id) hf).1 := by
-          rcases h.hook with hI | ⟨hd, hI, ho⟩
-          · exact Inv_step hI _ _ trivial
-          · exact dispatch_pays hd hI (hh ho) hf
-        split
-        · exact h.paid rfl (by sticky_tac) hI'
-        · exact h.paid rfl (by sticky_tac) hI'
+      · -- the hook is called: it re-arms (`Inv`), or — with a restart pending (D21) — the state stays `Loose`
+        have hI' : Inv (w.obs.step (.dispatch t.id) hf).1 ∨
+            ((w.obs.step (.dispatch t.id) hf).1.Loose ∧ w.getNextErr = true) := by
+          rcases h.hook with hI | ⟨hd, hI, ho⟩ | ⟨hl, hr⟩
+          · exact Or.inl (Inv_step hI _ _ trivial)
+          · exact Or.inl (dispatch_pays hd hI (hh ho) hf)
+          · exact Or.inr ⟨hl.user_step _ hf trivial trivial, hr.1⟩
+        rcases hI' with hI' | ⟨hl', hg⟩
+        · split
+          · exact h.paid rfl (by sticky_tac) hI'
+          · exact h.paid rfl (by sticky_tac) hI'
+        · split
+          · exact ⟨hfix, by sticky_tac, Or.inr (Or.inr ⟨hl', rfl, rfl⟩)⟩
+          · exact ⟨hfix, by sticky_tac, Or.inr (Or.inr ⟨hl', hg, rfl⟩)⟩
+  case d_mark.markDispatchedCore t retry =>
+    have hh : OwesHeld w → w.obs.Held t := by intro ho; simpa [OwesHeld, hpc] using ho
+    split
+    · exact h.move rfl rfl (by sticky_tac) (fun _ _ ho => Or.inl (Or.inr ⟨t, .ctx, rfl, rfl, hh ho⟩))
+    · -- D21: the core repository applies (or refuses) the transition, the hook is not told: whatever the
+      -- hook-timer state was, it is `Loose` now, and the `DispatchErr` exit sets the restart request
+      exact ⟨hfix, by sticky_tac, Or.inr (Or.inr ⟨h.loose.coreDispatch t.id, rfl, rfl⟩)⟩
   case r_getById.getById t f =>
-    have hh : Owes w → w.obs.Held t := by intro ho; simpa [Owes, hpc] using ho
+    have hh : OwesHeld w → w.obs.Held t := by intro ho; simpa [OwesHeld, hpc] using ho
     split
     · exact h.move rfl rfl (by sticky_tac) (fun _ _ ho => Or.inl (Or.inr ⟨t, .other, rfl, rfl, hh ho⟩))
     · split
@@ -831,41 +1240,41 @@ theorem LiveInv.sched_free {w : World} (h : LiveInv w) (a : SAct) : LiveInv (w.s
           refine h.move rfl rfl (by sticky_tac) (fun _ hI ho => Or.inl ?_)
           obtain ⟨cur', h1, h2⟩ := held_lookup (o := w.obs) hI.1 (hh ho)
           rw [hl] at h1; cases h1
-          simp [Owes, hfix, h2]
+          simp [OwesHeld, hfix, h2]
           exact hh ho
 
 /-- the form with the driver's premise, which the repaired code (D21) no longer needs -/
 theorem LiveInv.sched {w : World} (h : LiveInv w) (a : SAct) (_hdrv : World.DriverOk w (.sched a)) :
     LiveInv (w.sched a).1 := h.sched_free a
 
-theorem Owes.transfer {w : World} {o' : Obs} (hh : ∀ t, w.obs.Held t → o'.Held t) (ho : Owes w) :
-    Owes { w with obs := o' } := by
+theorem OwesHeld.transfer {w : World} {o' : Obs} (hh : ∀ t, w.obs.Held t → o'.Held t) (ho : OwesHeld w) :
+    OwesHeld { w with obs := o' } := by
   cases hpc : w.pc with
   | idle =>
-    have ho' : Sticky w ∨ DErr w := by simpa [Owes, hpc] using ho
+    have ho' : Sticky w ∨ DErr w := by simpa [OwesHeld, hpc] using ho
     have : Sticky { w with obs := o' } ∨ DErr { w with obs := o' } := by
       rcases ho' with (⟨t, h1, h2⟩ | hg) | ⟨t, e, h1, h2, h3⟩
       · exact Or.inl (Or.inl ⟨t, h1, hh t h2⟩)
       · exact Or.inl (Or.inr hg)
       · exact Or.inr ⟨t, e, h1, h2, hh t h3⟩
-    simpa [Owes, hpc] using this
+    simpa [OwesHeld, hpc] using this
   | s_lastErr0 =>
-    have ho' : LastDebt w := by simpa [Owes, hpc] using ho
+    have ho' : LastDebt w := by simpa [OwesHeld, hpc] using ho
     obtain ⟨t, h1, h2⟩ := ho'
     have : LastDebt { w with obs := o' } := ⟨t, h1, hh t h2⟩
-    simpa [Owes, hpc] using this
+    simpa [OwesHeld, hpc] using this
   | d_wait t b =>
     cases b with
-    | true => simp [Owes, hpc] at ho
+    | true => simp [OwesHeld, hpc] at ho
     | false =>
-      have ho' : w.obs.Held t := by simpa [Owes, hpc] using ho
-      simpa [Owes, hpc] using hh t ho'
+      have ho' : w.obs.Held t := by simpa [OwesHeld, hpc] using ho
+      simpa [OwesHeld, hpc] using hh t ho'
   | s_nextSched t | d_mark t _ | r_getById t =>
-    have ho' : w.obs.Held t := by simpa [Owes, hpc] using ho
-    simpa [Owes, hpc] using hh t ho'
-  | s_stop | s_start | r_stop | r_start | s_getNext => simp [Owes, hpc]
+    have ho' : w.obs.Held t := by simpa [OwesHeld, hpc] using ho
+    simpa [OwesHeld, hpc] using hh t ho'
+  | s_stop | s_start | r_stop | r_start | s_getNext => simp [OwesHeld, hpc]
   | s_lastErr1 | s_select | s_markDone _ _ | d_get _ | r_lastErr | r_markDone _ _ =>
-    simp [Owes, hpc] at ho
+    simp [OwesHeld, hpc] at ho
 
 theorem userOk_cases {w : World} {op : Obs.OOp} {hf : Option Err} (hu : World.UserOk w (.user op hf)) :
     op.isUser ∧ w.obs.FreshOp op := by
@@ -879,27 +1288,30 @@ theorem LiveInv.step {w : World} (h : LiveInv w) (a : Act) (hu : World.UserOk w 
   | user op hf =>
     have ⟨hu1, hu2⟩ := userOk_cases hu
     refine ⟨h.fix, h.sticky, ?_⟩
-    rcases h.hook with hI | ⟨hd, hI, ho⟩
+    rcases h.hook with hI | ⟨hd, hI, ho⟩ | ⟨hl, hr⟩
     · exact Or.inl (Inv_step hI op hf hu2)
     · rcases user_step_live hd hI op hf hu2 hu1 with h1 | ⟨h1, h2, h3⟩
       · exact Or.inl h1
-      · exact Or.inr ⟨h1, h2, ho.transfer h3⟩
+      · exact Or.inr (Or.inl ⟨h1, h2, ho.transfer h3⟩)
+    · -- D21: the hook runs against its stale cache; it re-arms or not, the state stays `Loose`
+      exact Or.inr (Or.inr ⟨hl.user_step op hf hu2 (by cases op <;> first | trivial | exact hu1), hr⟩)
   | advance t =>
     refine ⟨h.fix, h.sticky, ?_⟩
-    rcases h.hook with hI | ⟨hd, hI, ho⟩
+    rcases h.hook with hI | ⟨hd, hI, ho⟩ | ⟨hl, hr⟩
     · exact Or.inl (Inv_step hI (.advance t) none trivial)
     · have ⟨h1, h2⟩ := ghost_advance hd t
-      refine Or.inr ⟨h1, ?_, ho.transfer (o' := { w.obs with clock := w.obs.clock.advance t })
-        (fun _ hh => hh)⟩
+      refine Or.inr (Or.inl ⟨h1, ?_, ho.transfer (o' := { w.obs with clock := w.obs.clock.advance t })
+        (fun _ hh => hh)⟩)
       have hG := Inv_step hI (.advance t) none trivial
       simp only [Obs.step] at hG
       rw [← h2] at hG
       exact hG
+    · exact Or.inr (Or.inr ⟨hl.advance t, hr⟩)
   | complete id o =>
     simp only [World.step]
     split
-    · exact h.move rfl rfl h.sticky (fun _ _ ho => Or.inl ho)
-    · exact h.move rfl rfl h.sticky (fun _ _ ho => Or.inl ho)
+    · exact h.move rfl rfl h.sticky (fun _ _ ho => Or.inl ho) (fun hr => hr)
+    · exact h.move rfl rfl h.sticky (fun _ _ ho => Or.inl ho) (fun hr => hr)
 
 /-- `LiveInv` is inductive over every action WITHOUT the driver's premise: since `dispatchTask` sets the restart
 request when it gives up (D21), a `Step` issued over an un-retried `DispatchErr` restarts the timer. -/
@@ -1134,6 +1546,18 @@ theorem dispatch_step_cases (o : Obs) (id : String) (f : Option Err) :
   · left
     simp only [h, ↓reduceIte, and_self]
 
+/-- the repository after the wrapper's `MarkAsDispatched(id)` is the core repository's answer, whatever the hook
+does -/
+theorem dispatch_step_repo_core (o : Obs) (id : String) (f : Option Err) :
+    (o.step (.dispatch id) f).1.repo = (Repo.step {} o.repo o.clock.now (.dispatch id)).1 := by
+  simp only [Obs.step, Repo.step]
+  rcases mutate_out o.repo id (fun t =>
+    { t with state := .dispatched, dispatchedAt := some (normalize o.clock.now) }) with h | ⟨h, h'⟩
+  · simp only [h, Out.isErr, Bool.false_eq_true, ↓reduceIte]
+    exact hookDispatch_repo _ _ _
+  · simp only [h, ↓reduceIte]
+    exact h'.symm
+
 theorem mem_lookup {r : Repo} {u : Task} (hu : u ∈ r.tasks) : r.lookup u.id ≠ none := by
   intro hl
   unfold Repo.lookup at hl
@@ -1309,6 +1733,32 @@ theorem DispInv.sched {w : World} (hL : LiveInv w) (h : DispInv w) (a : SAct)
             rcases h2 u hu with h3 | h3
             · exact Or.inl (hold u h3 hs)
             · exact Or.inr h3.symm
+  case d_mark.markDispatchedCore t retry =>
+    have hno : ∀ id, ¬ HeldDisp w id := by simp [HeldDisp, hpc]
+    split
+    · exact h.move same (fun _ hh => hh) (fun _ _ _ hh => absurd hh (hno _))
+    · -- D21: the core marks `t` (or refuses); the returned `DispatchErr` keeps `t` for `Retry`
+      have hold : ∀ u ∈ w.obs.repo.tasks, u.state = .dispatched → Started w u.id := by
+        intro u hu hs
+        rcases h u hu hs with h1 | h1
+        · exact h1
+        · exact absurd h1 (hno _)
+      intro u hu hs
+      change u ∈ (Repo.mutateScheduled w.obs.repo t.id (fun t' =>
+        { t' with state := .dispatched, dispatchedAt := some (normalize w.obs.clock.now) })).1.tasks at hu
+      rcases mutate_out w.obs.repo t.id (fun t' =>
+        { t' with state := .dispatched, dispatchedAt := some (normalize w.obs.clock.now) }) with h1 | ⟨_, h1⟩
+      · rcases mutate_mem hu (fun _ => rfl) with h3 | ⟨h3, _⟩
+        · exact Or.inl (hold u h3 hs)
+        · refine Or.inr ?_
+          show ∃ t' e, SS.dispatchErr t _ = SS.dispatchErr t' e ∧ World.isDefError e = false ∧ t'.id = u.id
+          refine ⟨t, _, rfl, ?_, h3.symm⟩
+          show World.isDefError (match (Repo.step {} w.obs.repo w.obs.clock.now (.dispatch t.id)).2 with
+            | .err e => e | _ => .other) = false
+          simp only [Repo.step, h1]
+          rfl
+      · rw [h1] at hu
+        exact Or.inl (hold u hu hs)
 
 theorem DispInv.step {w : World} (hL : LiveInv w) (h : DispInv w) (a : Act)
     (hu : World.UserOk w a) (hdrv : World.DriverOk w a) : DispInv (w.step a) := by
@@ -1720,10 +2170,7 @@ theorem blocks_only_if_idle {w : World} (h : RoundInv w)
   obtain ⟨hL, hS, hSel⟩ := h
   cases hpc : w.pc
   case s_select =>
-    have hI : Inv w.obs := by
-      rcases hL.hook with hI | ⟨_, _, ho⟩
-      · exact hI
-      · simp [Owes, hpc] at ho
+    have hI : Inv w.obs := hL.inv_of_not (by simp [OwesHeld, hpc]) (by simp [Restart, restartPc, hpc])
     have hst : w.obs.hook.started = true := by
       rcases hS with h | h | h
       · exact h
@@ -2023,9 +2470,10 @@ theorem two_rounds_run_head {w : World} {hd : Task} (hL : LiveInv w) (hpc : w.pc
     exact round_dispatch (w := afterAnnounce { w with obs := restartedDue w.obs hd } hd)
       rfl rfl rfl rfl rfl hlk hsc
   · have hI : Inv w.obs := by
-      rcases hL.hook with hI | ⟨hd', _, _⟩
+      rcases hL.hook with hI | ⟨hd', _, _⟩ | ⟨_, hR⟩
       · exact hI
       · rw [hd'.2] at hp; cases hp
+      · rw [hR.1] at hg; cases hg
     refine ⟨_, round_announce hI hpc hq hg hst he hl hp hstale hn hdue, rfl, rfl, rfl, rfl, rfl, ?_⟩
     exact round_dispatch (w := afterAnnounce w hd) rfl rfl rfl he rfl hlk hsc
 
